@@ -279,18 +279,17 @@ class LoopMixin:
                         request(2)
                 return Gen(val, chk_sl)
             if level <= 2:
-                s = self.fresh(f'{key[1]}@app')
-                self.store.declare(s, 0, None, info=f'bytes appended to {key[1]} by earlier iterations')
-                app = Opq(Lin.sym(s), ('loop-appended', key[1]))
+                asrc = seqops.new_source(self, f'{key[1]}@appended', pre_r.kind, 0, None, tags=value_tags(pre_r))
+                asrc.loop_appended = True
+                app = Sl(asrc, 0, asrc.length)
                 val = seqops.normalise(self, pre_r.kind, segs + (app,), pre_r.tags)
                 npre = len(val.segs)
 
                 def chk_app(new):
                     ok = isinstance(new, SeqV) and len(new.segs) >= npre
                     if ok:
-                        for x, y in zip(val.segs, new.segs[:npre]):
-                            if x is not y and not (isinstance(x, Lit) and isinstance(y, Lit) and x.data == y.data):
-                                ok = False
+                        head = SeqV(new.kind, new.segs[:npre])
+                        ok = seqops.seq_eq_structural(it, val, head) is True
                     if not ok:
                         request(3)
                 return Gen(val, chk_app)
